@@ -4,7 +4,7 @@ import ast
 
 from .model import AnalysisError, dotted, unparse, FuncInfo
 from .paths import Paths, call_attr, call_name, PathExplosion
-from .util import U, is_socket_recv, is_yield_call
+from .util import U, is_socket_recv, is_yield_call, equiv_facts
 
 UPS = {'AsyncProcessResponse', 'AsyncProcessResponseMessage', 'AsyncProcessResponseStream'}
 REGISTER = {'rawlink', 'ContinueWith', 'Subscribe', 'Schedule', 'SafeLink', 'link', 'Map'}
@@ -82,7 +82,7 @@ class SinkProto(object):
         facts = []
         for e in ev:
           if e.kind == 'cond':
-            facts.append((U(e.node).replace(' ', ''), e.info))
+            facts.extend(equiv_facts(e.node, e.info))
             for a in alts:
               a.append(Item('COND', e.node, (U(e.node).replace(' ', ''), e.info)))
             continue
